@@ -16,7 +16,7 @@ import ast
 import textwrap
 from pathlib import Path
 
-from .dataflow import Flow, clone
+from .dataflow import is_impure_call, Flow, clone
 from .model import AnalysisError, FuncInfo, Module, dotted, norm, parent, set_parents
 from .poly import Poly, PolyEnv
 
@@ -541,9 +541,94 @@ def _strip(fn: ast.FunctionDef) -> ast.FunctionDef:
     return ast.fix_missing_locations(P().visit(new))
 
 
+_TERMINATORS = (ast.Raise, ast.Return, ast.Break, ast.Continue)
+_POSITIVE = {ast.NotEq: ast.Eq, ast.IsNot: ast.Is, ast.NotIn: ast.In}
+
+
+def _terminates(stmts: list[ast.stmt]) -> bool:
+    if not stmts:
+        return False
+    last = stmts[-1]
+    if isinstance(last, _TERMINATORS):
+        return True
+    if isinstance(last, ast.If):
+        return _terminates(last.body) and _terminates(last.orelse)
+    return False
+
+
+def _only_terminator(stmts: list[ast.stmt]) -> bool:
+    """A block that does nothing but leave (optionally building the error message first)."""
+    if not stmts or not isinstance(stmts[-1], _TERMINATORS):
+        return False
+    return all(isinstance(s, ast.Assign) and isinstance(s.value, (ast.JoinedStr, ast.Constant)) for s in stmts[:-1])
+
+
+def normalise_control(stmts: list[ast.stmt]) -> list[ast.stmt]:
+    """Control-flow normal form, so that equivalent spellings of a guard give the same effects-in-context:
+    negated tests swap their branches; `if a or b: leave` is `if a: leave` then `if b: leave`; when one branch of an
+    `if` always leaves (raise/return/break/continue) the statements after the `if` belong to the other branch."""
+    out: list[ast.stmt] = []
+    for i, st in enumerate(stmts):
+        if isinstance(st, ast.If):
+            test, body, orelse = st.test, list(st.body), list(st.orelse)
+            while True:
+                if isinstance(test, ast.UnaryOp) and isinstance(test.op, ast.Not):
+                    test, body, orelse = test.operand, orelse, body
+                    continue
+                if isinstance(test, ast.Compare) and len(test.ops) == 1 and type(test.ops[0]) in _POSITIVE:
+                    test = ast.copy_location(ast.Compare(left=test.left, ops=[_POSITIVE[type(test.ops[0])]()], comparators=test.comparators), test)
+                    body, orelse = orelse, body
+                    continue
+                break
+            rest = list(stmts[i + 1:])
+            if isinstance(test, ast.BoolOp) and isinstance(test.op, ast.Or) and _only_terminator(body):
+                # if a or b: T else: E  ==  if a: T else: (if b: T else: E)
+                inner: list[ast.stmt] = orelse
+                for v in reversed(test.values):
+                    inner = [ast.copy_location(ast.If(test=v, body=clone_block(body), orelse=inner), st)]
+                return out + normalise_control(inner + rest)
+            if isinstance(test, ast.BoolOp) and isinstance(test.op, ast.And) and _only_terminator(orelse):
+                # if a and b: X else: T  ==  if a: (if b: X else: T) else: T
+                inner = body
+                for v in reversed(test.values):
+                    inner = [ast.copy_location(ast.If(test=v, body=inner, orelse=clone_block(orelse)), st)]
+                return out + normalise_control(inner + rest)
+            if not body:
+                body = []
+            if _terminates(normalise_control(body)) and not _terminates(normalise_control(orelse)):
+                out.append(ast.copy_location(ast.If(test=test, body=normalise_control(body) or [ast.Pass()],
+                                                    orelse=normalise_control(orelse + rest)), st))
+                return out
+            if _terminates(normalise_control(orelse)) and not _terminates(normalise_control(body)):
+                out.append(ast.copy_location(ast.If(test=test, body=normalise_control(body + rest) or [ast.Pass()],
+                                                    orelse=normalise_control(orelse)), st))
+                return out
+            out.append(ast.copy_location(ast.If(test=test, body=normalise_control(body) or [ast.Pass()], orelse=normalise_control(orelse)), st))
+            continue
+        if isinstance(st, (ast.For, ast.While)):
+            st.body = normalise_control(st.body)
+            st.orelse = normalise_control(st.orelse)
+        elif isinstance(st, ast.With):
+            st.body = normalise_control(st.body)
+        elif isinstance(st, ast.Try):
+            st.body = normalise_control(st.body)
+            st.orelse = normalise_control(st.orelse)
+            st.finalbody = normalise_control(st.finalbody)
+            for h in st.handlers:
+                h.body = normalise_control(h.body)
+        out.append(st)
+    return out
+
+
+def clone_block(stmts: list[ast.stmt]) -> list[ast.stmt]:
+    return [clone(s) for s in stmts]
+
+
 class Signature:
     def __init__(self, fn_node: ast.FunctionDef, roles: list[str] | None):
         fn = _strip(fn_node)
+        fn.body = normalise_control(fn.body) or [ast.Pass()]
+        ast.fix_missing_locations(fn)
         params = [a.arg for a in fn.args.args]
         self.nparams = len(params)
         if roles is not None:
@@ -653,7 +738,12 @@ class Signature:
                     if isinstance(t, ast.Name) and t.id in getattr(self, "messages", ()):
                         continue  # error-message text is not part of the computed function
                     if isinstance(t, ast.Name) and not t.id.startswith("$"):
-                        continue  # single-definition temporary: substituted where used
+                        # single-definition temporary: substituted where used; a stateful call whose result is never
+                        # used still happened
+                        if any(is_impure_call(x) for x in ast.walk(st.value)) and not any(
+                                isinstance(n, ast.Name) and n.id == t.id and isinstance(n.ctx, ast.Load) for n in ast.walk(self.fn)):
+                            self.facts.add(("expr", self._canon(st.value, st), ctx))
+                        continue
                     v = vals[i] if vals is not None else st.value
                     tag = f"[{i}]" if vals is None and len(tgts) > 1 else ""
                     tt = self._target(t, st)
